@@ -92,9 +92,13 @@ def run_one(top, div, add, simplify, order, sub, out, extra):
     from pacti.iocontract import Var
     from pacti.utils.errors import IncompatibleArgsError
 
+    before = (jcontract(top), jcontract(div))
     try:
         q, stats = top.quotient_tactics(div, [Var(x) for x in add], simplify, None if order is None else list(order))
     except IncompatibleArgsError:
+        if (jcontract(top), jcontract(div)) != before:
+            out.append(("modified-operand", False, None, {"sub": sub, "what": "quotient modified an operand contract in place (while refusing)"}, extra))
+            return None
         out.append(("IncompatibleArgsError", False, None, None, extra))
         return None
     except ValueError:
@@ -104,6 +108,9 @@ def run_one(top, div, add, simplify, order, sub, out, extra):
         out.append(("escaped:" + type(e).__name__, False, None, {"sub": sub, "what": "quotient raised %s: %s" % (type(e).__name__, str(e)[:120])}, extra))
         return None
     used = sorted({t[0] for st in stats for t in st if t[0] > 0})
+    if (jcontract(top), jcontract(div)) != before:
+        out.append(("modified-operand", False, None, {"sub": sub, "what": "quotient modified an operand contract in place"}, extra))
+        return any(st for st in stats)
     w = CS.quotient_unsound(top, div, q)
     viol = None
     if w is not None:
